@@ -33,6 +33,8 @@ RULE = ('connected flowsheets of 2-10 units with 1-3 inlet and outlet ports each
         '5 (thorough) units with in/out degree <= 3 in every unit order; a case is non-trivial when it has at least one '
         'stream between two units; distinct = distinct (ports, edges, F_mass, order)')
 ASSUMPTIONS = [
+    'hypotheses of the theorems, monitored by the driver on every flowsheet (answer of the graph line): every stream '
+    'ends in a given unit or nowhere (Graph.SinksOK), one outlet list per unit, every unit has an outlet',
     'the joining machinery between the depth-first walk and Network.sort (join_linear_network, join_recycle_network, '
     '_insert_recycle_network, reduce_recycles, ...) is not modelled; its output is validated per run by validNetwork',
     'Network.units of every (sub-)network equals the units of its flattened path when Network.sort runs (monitored)',
